@@ -22,14 +22,22 @@ Fixpoint entry_offsets (off : N) (es : list entry) : list N :=
   | e :: r => off :: entry_offsets (off + blen (ser_entry e)) r
   end.
 
-(* SearchIndex.IndexOffset: every 16th entry, starting with the first; uint32(offset) *)
-Definition index_spacing : nat := 16.
-Fixpoint sample (c : nat) (l : list N) : list N :=
+(* Writer-side constants of the format: the index spacing (search_index.go searchIndexSpacing) and the bloom filter
+   NewTable creates (bloom.NewFilter(bits, hashes)). Readers never refer to them: the index block stores its own
+   offset count and the bloom block its size and hash count. Everything below is parametric in them; the theorems
+   hold for every spacing > 0 and every filter size. *)
+Record tparams := mkTP { tp_spacing : nat; tp_bits : N; tp_hashes : N }.
+Definition default_params : tparams := mkTP 16 32768 5.        (* the constants of the code as of 160f5f0 *)
+Definition params_ok (tp : tparams) : Prop :=
+  (0 < tp_spacing tp)%nat /\ 0 < tp_bits tp /\ tp_bits tp + 63 < 4294967296 /\ tp_hashes tp < 4294967296.
+
+(* SearchIndex.IndexOffset: every sp-th entry (itemsWritten % sp == 0), starting with the first; uint32(offset) *)
+Fixpoint sample (sp : nat) (c : nat) (l : list N) : list N :=
   match l with
   | [] => []
-  | x :: r => match c with O => u32 x :: sample (index_spacing - 1) r | S c' => sample c' r end
+  | x :: r => match c with O => u32 x :: sample sp (sp - 1) r | S c' => sample sp c' r end
   end.
-Definition index_of (es : list entry) : list N := sample 0 (entry_offsets 0 es).
+Definition index_of (tp : tparams) (es : list entry) : list N := sample (tp_spacing tp) 0 (entry_offsets 0 es).
 
 Definition idx_encode (offs : list N) : bytes := w_u32 (blen offs) ++ flat_map w_u32 offs.
 Fixpoint rd_offsets (n : nat) (d : bytes) : option (list N * bytes) :=
@@ -46,16 +54,14 @@ Definition idx_decode (d : bytes) : option (list N * bytes) :=
   | None => None
   end.
 
-(* NewTable: bloom.NewFilter(32*size.KB, 5) *)
-Definition table_bloom_bits : N := 32768.
-Definition table_bloom_hashes : N := 5.
-Definition bloom_of (es : list entry) : bloom :=
-  bf_add_all (bf_new table_bloom_bits table_bloom_hashes) (map e_key es).
+(* NewTable: bloom.NewFilter(bits, hashes), every key added *)
+Definition bloom_of (tp : tparams) (es : list entry) : bloom :=
+  bf_add_all (bf_new (tp_bits tp) (tp_hashes tp)) (map e_key es).
 
 (* TableWriter.Write: entries, bloom block, index block, 12-byte footer *)
-Definition ser_table (es : list entry) : bytes :=
+Definition ser_table (tp : tparams) (es : list entry) : bytes :=
   let body := ser_entries es in
-  body ++ bf_encode (bloom_of es) ++ idx_encode (index_of es) ++ w_u64 (blen body) ++ w_u32 1.
+  body ++ bf_encode (bloom_of tp es) ++ idx_encode (index_of tp es) ++ w_u64 (blen body) ++ w_u32 1.
 
 (* the in-memory table: file + the fields of TableDocument; metadata either in memory (fresh from the writer)
    or loaded from the footer on first use (re-opened from a document) *)
@@ -71,10 +77,10 @@ Definition first_seq (es : list entry) : N := match es with [] => 0 | e :: _ => 
 (* endSeqNum: maximum over the entries (3d67666; before it: the sequence number of the last key) *)
 Definition max_seq (es : list entry) : N := fold_left (fun a e => N.max a (e_seq e)) es 0.
 
-Definition write_table (es : list entry) : table :=
-  let f := ser_table es in
+Definition write_table (tp : tparams) (es : list entry) : table :=
+  let f := ser_table tp es in
   mkT f (blen f) (blen (ser_entries es)) (first_key es) (last_key es) (first_seq es) (max_seq es)
-      (Some (bloom_of es, index_of es)).
+      (Some (bloom_of tp es, index_of tp es)).
 
 (* Table.Document(): the descriptor stored in a checkpoint. The file is identified by its URI; here by its bytes. *)
 Record tdoc := mkDoc { doc_start : bytes; doc_end : bytes; doc_size : N; doc_esize : N; doc_sseq : N; doc_eseq : N }.
